@@ -190,6 +190,11 @@ func (g *c07OvGen) macro(k int) *c07OvMacro {
 			formals, params = "(p1 &rest xs)", "p1 xs"
 			inner = fw.Pick(r, []string{"(cons p1 (cdr xs))", "(cons 0 (cdr xs))", "(cons (car xs) (cdr xs))"})
 		}
+		form := "(cons 'NAME INNER)"
+		if r.Bool() {
+			form = "(quasiquote (NAME (unquote-splicing INNER)))"
+			m.feat += ":qq"
+		}
 		pre := ""
 		if r.Chance(1, 3) {
 			pre = "(verif:probe 'x-NAME (list PARAMS))"
@@ -198,9 +203,9 @@ func (g *c07OvGen) macro(k int) *c07OvMacro {
   (if (nil? xs)
     BASE
     (let* ((before (list PARAMS))
-           (tail (EXPAND (cons 'NAME INNER))))
+           (tail (EXPAND REENTRY)))
       (verif:probe 'xheld-NAME before (list PARAMS))
-      (quasiquote TMPL))))`, "PRE", pre, "FORMALS", formals, "PARAMS", params, "INNER", inner, "BASE", v.base, "TMPL", v.tmpl, "EXPAND", expander, "NAME", m.name)
+      (quasiquote TMPL))))`, "PRE", pre, "REENTRY", form, "FORMALS", formals, "PARAMS", params, "INNER", inner, "BASE", v.base, "TMPL", v.tmpl, "EXPAND", expander, "NAME", m.name)
 	case 3:
 		m.kind, m.rest, m.numeric, m.plain = "eval-tail", true, true, true
 		m.feat = "eval-tail"
@@ -208,7 +213,7 @@ func (g *c07OvGen) macro(k int) *c07OvMacro {
   (if (nil? xs)
     0
     (let* ((before (list xs))
-           (rest-val (eval (cons 'NAME (cdr xs)))))
+           (rest-val (eval (quasiquote (NAME (unquote-splicing (cdr xs)))))))
       (verif:probe 'xheld-NAME before (list xs))
       (quasiquote (+ (unquote (car xs)) (unquote rest-val))))))`, "NAME", m.name)
 	case 4, 5:
